@@ -1,1 +1,2 @@
 pub mod zlib;
+pub mod guard;
